@@ -123,8 +123,20 @@ def run(eng, rep, tier):
     silent = [ev for ev in pushes if isinstance(ev.node, ast.Call) and isinstance(ev.node.args[0], ast.Tuple) and
               isinstance(ev.node.args[0].elts[0], ast.Name) and ev not in consume and
               tag(SELF, DE) in deps_of(ev.value)]
-    ob.decide("R1", "C16.3", ft, "consuming-move", bool(consume) and all(any("len(remaining) != 0" in f[0] or "remaining" in f[0]
-                                                                            for f in ev.facts) for ev in consume),
+    # the consumed sequence = the expression that is sliced in the consuming push; "under a non-empty test" = some branch
+    # fact on the path implies len(<that expression>) >= 1, whatever the local is called and however the test is spelt
+    from .flow import min_len
+    def nonempty_guarded(ev):
+        base = ast.unparse(ev.node.args[0].elts[0].value)
+        for text, pol, _names in ev.facts:
+            try:
+                e = ast.parse(text, mode="eval").body
+            except SyntaxError:
+                continue
+            if (min_len(e, pol, base) or 0) >= 1:
+                return True
+        return False
+    ob.decide("R1", "C16.3", ft, "consuming-move", bool(consume) and all(nonempty_guarded(ev) for ev in consume),
               "a symbol move consumes the first remaining symbol (under a non-empty test)",
               "translate has no move that consumes the first remaining input symbol under a non-empty test", st_,
               site=site_of(prog, ft, ft.node))
@@ -134,20 +146,33 @@ def run(eng, rep, tier):
               "an epsilon move keeps the remaining input", "translate has no epsilon move that keeps the remaining input",
               st_, site=site_of(prog, ft, ft.node))
     ys = [y for y in ast.walk(ft.node) if isinstance(y, ast.Yield)]
-    from .flow import _path_to
+    from .flow import _path_to, _membership, _atoms_of
+    seqs = {ast.unparse(ev.node.args[0].elts[0].value) for ev in consume}
+
     def guarded(y):
-        tests = " and ".join(ast.unparse(a.test) for a in _path_to(ft.node, y) if isinstance(a, ast.If))
-        return ("== 0" in tests or "not " in tests) and "final" in tests
-    ob.decide("R1", "C16.3", ft, "yield-iff-consumed-and-final", bool(ys) and all(guarded(y) for y in ys),
+        """the yield sits under tests that hold only when the consumed sequence is empty and the state is final"""
+        atoms = {}
+        for a in _path_to(ft.node, y):
+            if isinstance(a, ast.If) and any(n is y for b in a.body for n in ast.walk(b)):
+                _atoms_of(a.test, atoms) if not isinstance(a.test, ast.BoolOp) or isinstance(a.test.op, ast.And) else None
+        empty = any((min_len(t_, False, q) or 0) >= 1 for t_ in atoms.values() for q in seqs)
+        final = any("final" in ast.unparse(t_) for t_ in atoms.values())
+        return empty and final
+    ob.decide("R1", "C16.3", ft, "yield-iff-consumed-and-final", bool(ys) and bool(seqs) and all(guarded(y) for y in ys),
               "an output is yielded only with empty remainder in a final state",
               "translate yields without requiring (empty remainder and final state)", None, site=site_of(prog, ft, ft.node))
+    # mark at pop: in the worklist loop, `if <config> in V: continue` is followed, before anything is pushed, by a
+    # statement that records the configuration in the same V
     mark_ok = False
     for lp in [w for w in ast.walk(ft.node) if isinstance(w, ast.While)]:
         body = lp.body
         for i, s_ in enumerate(body):
-            if isinstance(s_, ast.If) and " in seen" in ast.unparse(s_.test) and s_.body and isinstance(s_.body[-1], ast.Continue):
+            if isinstance(s_, ast.If) and not s_.orelse and s_.body and isinstance(s_.body[-1], ast.Continue):
+                v = _membership(s_.test, True)
                 rest = body[i + 1:]
-                if rest and "seen" in ast.unparse(rest[0]) and "append" in ast.unparse(rest[0]):
+                if v is not None and rest and any(
+                        isinstance(c, ast.Call) and isinstance(c.func, ast.Attribute) and c.func.attr in ("append", "add")
+                        and ast.unparse(c.func.value) == v for c in ast.walk(rest[0])):
                     mark_ok = True
     ob.decide("R10a", "C16.6", ft, "mark-at-pop", mark_ok,
               "(remaining, output) is tested and marked per state at pop time, before expanding",
